@@ -369,6 +369,17 @@ package core
 
 //@ define mgetready(m) = forall s int32 :: has(m.Frags, s) ==> (has(m.Body, s) && m.Body[s] != nil && len(m.Body[s].Rsp) == len(m.Frags[s]))
 
+// Merge (C07): once every group has answered, the client's reply is the array header for len(Keys) elements followed,
+// for each key of the request in its original order, by the element its group's reply holds at the (first) index of that
+// key within the group (spec/smt/groups.smt2: kfirst, lcat). Together with Frag1's partition clauses (every key sits in
+// its slot's group) and parseMGet's element clause this is the per-key positional merge of the backend replies.
+//@ define mslot(m, p) = keyslot(m.Keys[p])
+//@ define mfirst(m, p) = kfirst(m.Frags[mslot(m, p)], m.Keys[p])
+//@ define msel(m, p) = ite(has(m.Frags, mslot(m, p)) && mfirst(m, p) >= 0, m.Body[mslot(m, p)].Rsp[mfirst(m, p)], "")
+//@ define mhdr(m) = s_cat(s_cat("*", itoa(len(m.Keys))), "\r\n")
+//@ define merged(m, j) = lcat(lambda p int :: msel(m, p), j, mhdr(m))
+//@ define mergedu(m, j) = lcat_unfold(lambda p int :: msel(m, p), j, mhdr(m))
+
 //@ func SRespCodec.MGet
 //@   props C07 C11
 //@   modifies f.Rsp, f.Done, f.Error, f.Peer.Done, f.Peer.Error, f.Peer.RspBody, capmem(f.Peer.RspBody), codec.buffer.r, codec.buffer.buf
@@ -384,12 +395,22 @@ package core
 //@   ensures[wait] (arrn(f.RspBody) >= 1 && f.Peer.FragDoneNumber < len(f.Peer.Body)) ==> result == codec.Continue && f.Peer.Done == old(f.Peer.Done) && f.Peer.RspBody == old(f.Peer.RspBody)
 //@   ensures[final] (arrn(f.RspBody) >= 1 && f.Peer.FragDoneNumber >= len(f.Peer.Body)) ==> result == nil && f.Peer.Done
 //@   ensures[toolarge@C17] (old(f.Peer.Error) != codec.ErrMsgRspTooLarge && f.Peer.Error == codec.ErrMsgRspTooLarge) ==> bytes_eq(f.Peer.RspBody, "-ERR rsp msg length too large\r\n")
+//@   ensures[merge@C07] (arrn(f.RspBody) >= 1 && f.Peer.FragDoneNumber >= len(f.Peer.Body) && len(merged(f.Peer, len(f.Peer.Keys))) <= rc.MsgMaxLength)
+//@       ==> holds(f.Peer.RspBody, merged(f.Peer, len(f.Peer.Keys)))
+//@   assert at call append#1 :: holds(msg.RspBody, "*")
+//@   assert at call append#2 :: holds(msg.RspBody, s_cat("*", itoa(len(msg.Keys))))
+//@   assert[merge.pick@C07] at call append#3 :: i == mfirst(msg, rangeindex#0)
+//@   assert[merge.elem@C07] at call append#3 :: msg.Body[slot].Rsp[i] == msel(msg, rangeindex#0)
 //@   loop 0
 //@     modifies f.Peer.RspBody, capmem(f.Peer.RspBody)
 //@     invariant 0 <= rangeindex + 1 && rangeindex + 1 <= len(msg.Keys) && msg == f.Peer && sameback(msg.RspBody)
+//@     invariant[merge.prefix@C07] mergedu(msg, rangeindex + 1) && mergedu(msg, rangeindex + 2) && holds(msg.RspBody, merged(msg, rangeindex + 1))
 //@   loop 1
 //@     modifies nothing
 //@     invariant 0 <= rangeindex#1 + 1 && msg == f.Peer
+//@     invariant 0 <= rangeindex#0 && rangeindex#0 < len(msg.Keys) && k == msg.Keys[rangeindex#0] && slot == keyslot(k)
+//@     invariant[merge.search@C07] forall j int :: (0 <= j && j <= rangeindex#1) ==> msg.Frags[slot][j] != k
+//@     invariant[merge.held@C07] mergedu(msg, rangeindex#0 + 1) && holds(msg.RspBody, merged(msg, rangeindex#0))
 
 //@ define inq(s) = sc(s).inFragQueue
 
